@@ -12,7 +12,7 @@ from Geometry3D import (get_segment_convexpolyhedron_intersection_point_set as s
 
 from .. import core, lib, exact as X, alphabet as A
 from ..core import Viol, Family
-from ..icheck import eval_inter, model_inter
+from ..icheck import eval_inter, model_inter, safe_pose
 
 EXTRA_HASHSEEDS = (1,)       # thorough tier re-runs the quick space under a second pinned hash seed
 LEVEL = 'exploration'
@@ -109,9 +109,10 @@ class FlatBody(Family):
     scene_timeout = 120.0
 
     def __init__(self, bname, pose, params, chunk=150):
+        self.body0 = A.body(bname)
+        pose = safe_pose(pose, self.body0)
         self.name = 'FB/%s/%s' % (bname, pose.name)
         self.bname, self.pose = bname, pose
-        self.body0 = A.body(bname)
         self.flats0 = flats_for(self.body0, params)
         self.total = 2 * len(self.flats0)
         self._shards = [(i, min(i + chunk, len(self.flats0))) for i in range(0, len(self.flats0), chunk)]
